@@ -36,7 +36,7 @@ class Walk(Contract):
     def inputs(self):
         fields = dict(_root_dir=ObjV(z3.Const('self_root_dir', Obj)), follow_links=Bool(z3.Bool('self_follow_links')), _skipped=Int(z3.Int('skipped0')))
         ghost = {'$abort_seen': z3.BoolVal(True), '$since_poll': z3.IntVal(0), '$m': z3.IntVal(1), '$s': z3.IntVal(0), '$e': z3.IntVal(0), '$raised': z3.BoolVal(False),
-                 '$last_hook': None, '$walk_args': None}
+                 '$last_hook': None, '$walk_args': None, '$owed': z3.BoolVal(False)}
         return dict(params=dict(self=selfobj()), fields=fields, pre=[], ghost=ghost)
 
     # ---- hooks
@@ -54,6 +54,8 @@ class Walk(Contract):
                 g = st.ghost
                 eng.oblige('WcMatch._walk.each_visited_file_reaches_exactly_one_of_on_match/on_skip_and_on_error_iff_validation_raised', st,
                            z3.And(g['$m'] + g['$s'] == 1, g['$e'] == z3.If(g['$raised'], 1, 0)), node)
+            # every value a hook returned for this entry (anything from on_match, anything but None from on_skip / on_error) has been yielded
+            eng.oblige('WcMatch._walk.every_hook_value_is_passed_through_(yielded_before_the_next_poll_unless_None_from_on_skip/on_error)', st, z3.Not(st.ghost['$owed']), node)
             b = z3.Bool(pyvc.fresh('aborted'))
             st.ghost['$abort_seen'] = b
             st.ghost['$since_poll'] = z3.IntVal(0)
@@ -91,8 +93,10 @@ class Walk(Contract):
                     eng.oblige('WcMatch._walk.on_match_only_for_files_validated_True', st, pyvc.truthy(st.env['valid']), node)
                 if kind == 'on_skip':
                     eng.oblige('WcMatch._walk.on_skip_only_for_files_not_validated', st, z3.Not(pyvc.truthy(st.env['valid'])), node)
+                eng.oblige('WcMatch._walk.every_hook_value_is_passed_through_(yielded_before_the_next_poll_unless_None_from_on_skip/on_error)', st, z3.Not(st.ghost['$owed']), node)
                 r = V('opt', None, isnone=z3.Bool(pyvc.fresh(kind + '_returns_None')), inner=ObjV(z3.Const(pyvc.fresh(kind + '_value'), Obj)))
                 st.ghost['$last_hook'] = (kind, r)
+                st.ghost['$owed'] = z3.BoolVal(True) if kind == 'on_match' else z3.Not(r.a['isnone'])
                 return r
             return h
 
@@ -125,13 +129,13 @@ class Walk(Contract):
     @property
     def invariants(self):
         def inv1(st, k):
-            return z3.BoolVal(True)
+            return z3.Not(st.ghost['$owed'])
 
         def inv23(st, k):
-            return z3.And(z3.Not(st.ghost['$abort_seen']), st.ghost['$since_poll'] == 0)
+            return z3.And(z3.Not(st.ghost['$abort_seen']), st.ghost['$since_poll'] == 0, z3.Not(st.ghost['$owed']))
         return {1: ('os.walk(self._root_dir, followlinks=self.follow_links)', inv1), 2: ('dirs[:]', inv23), 3: ('files', inv23)}
 
-    loop_ghosts = {1: ('$abort_seen', '$since_poll', '$m', '$s', '$e', '$raised'), 2: ('$abort_seen', '$since_poll'), 3: ('$abort_seen', '$since_poll', '$m', '$s', '$e', '$raised')}
+    loop_ghosts = {1: ('$abort_seen', '$since_poll', '$m', '$s', '$e', '$raised', '$owed'), 2: ('$abort_seen', '$since_poll', '$owed'), 3: ('$abort_seen', '$since_poll', '$m', '$s', '$e', '$raised', '$owed')}
 
     @property
     def at(self):
@@ -152,14 +156,22 @@ class Walk(Contract):
         return {'yield:': [('WcMatch._walk.yields_exactly_the_hook_values_(None_from_on_skip/on_error_is_not_yielded)_and_never_after_an_abort_was_seen', y)],
                 'assign:self._skipped': [('WcMatch._walk.skipped_counter_incremented_by_one_exactly_for_files_not_matched', skipped)]}
 
+    @property
+    def ghost_update(self):
+        def on_yield(st, result):
+            lh = st.ghost.get('$last_hook')
+            if lh is not None:
+                st.ghost['$owed'] = z3.And(st.ghost['$owed'], z3.Not(pyvc.eq(result, lh[1])))
+        return {'yield:': on_yield}
+
     obligation_props = {'WcMatch._walk.nothing_runs': ('C15',), 'WcMatch._walk.a_poll': ('C15',), 'WcMatch._walk.each_visited': ('C15', 'C14'),
                         'WcMatch._walk.validators_get': ('C14', 'C15'), 'WcMatch._walk.hooks_get': ('C15', 'C14'), 'WcMatch._walk.on_match_only': ('C14', 'C15'),
-                        'WcMatch._walk.on_skip_only': ('C14', 'C15'), 'WcMatch._walk.os.walk': ('C06', 'C14'), 'WcMatch._walk.yields_exactly': ('C15',),
+                        'WcMatch._walk.on_skip_only': ('C14', 'C15'), 'WcMatch._walk.os.walk': ('C06', 'C14'), 'WcMatch._walk.yields_exactly': ('C15',), 'WcMatch._walk.every_hook_value': ('C15',),
                         'WcMatch._walk.skipped_counter': ('C14', 'C15'), 'WcMatch._walk.loop': ('C15',), 'wcmatch.WcMatch._walk.raises_only_documented': ('C15',)}
 
 
 class IMatch(Contract):
-    module, qual, props = 'wcmatch', 'WcMatch.imatch', ('C15',)
+    module, qual, props = 'wcmatch', 'WcMatch.imatch', ('C15', 'C14')
 
     def inputs(self):
         return dict(params=dict(self=selfobj()), fields=dict(_skipped=Int(z3.Int('skipped_before'))), pre=[], ghost={'$resets': 0, '$walk_started': False})
@@ -177,7 +189,9 @@ class IMatch(Contract):
             st.ghost['$walk_started'] = True
             fn = z3.Function('walk_item', z3.IntSort(), Obj)
             return V('list', None, length=z3.Int('n_walk_items'), elem=lambda k: ObjV(fn(k)))
-        return {'self.on_reset': h_reset, 'self._walk': h_walk}
+        def h_is_aborted(eng, node, st, args):
+            return Bool(z3.Bool(pyvc.fresh('aborted_on_entry')))       # the object may be in the killed state when a run starts
+        return {'self.on_reset': h_reset, 'self._walk': h_walk, 'self.is_aborted': h_is_aborted}
 
     @property
     def invariants(self):
@@ -193,7 +207,7 @@ class IMatch(Contract):
     def ensures(self):
         return [('WcMatch.imatch.on_reset_exactly_once_per_run', ('C15',), lambda c: z3.BoolVal(c.st.ghost['$resets'] == 1 and c.st.ghost['$walk_started']))]
 
-    obligation_props = {'WcMatch.imatch': ('C15',)}
+    obligation_props = {'WcMatch.imatch.on_reset_called_once_and_skipped': ('C15', 'C14'), 'WcMatch.imatch': ('C15',)}
 
 
 class Match(Contract):
